@@ -2,6 +2,7 @@ package props
 
 import (
 	"fmt"
+	"regexp"
 	"go/ast"
 	"go/token"
 	"go/types"
@@ -22,7 +23,7 @@ func init() {
 		Explanation: "Decided (necessary conditions; breaking one makes some valid program diverge, crash or be rejected by one engine only): (R01.1) every opcode the validator accepts has an arm in the interpreter's lowering and in the compiler frontend; (R01.2) every interpreter operation kind has an arm in the execution loop, except six kinds that rely on the pc-advancing default for a stated reason; " +
 			"(R01.3) every SSA opcode that can be emitted has side-effect and return-type table entries and an arm in the amd64 and arm64 lowering; (R01.5) the interpreter keeps 32-bit values zero-extended on its 64-bit stack: in arms tagged with a 32-bit type every pushed value is a conversion of an unsigned ≤32-bit value or a small constant (kinds whose tag names the source type are listed); " +
 			"(R01.6) every indirect call emitted by the frontend is preceded on all paths by the store of the caller's module context (helper summaries see through wrappers); (R01.7) the amd64 fusion of `and` into TEST for a comparison with zero only matches the zero as the right-hand operand (genuine defect found and fixed). " +
-			"(R01.8) both engines check and access exactly the number of bytes the instruction's mnemonic dictates (same analysis as C02 R02.1/R02.6). The 32-bit slot normalisation at the Go boundary is decided under C08 (R08.9). NOT decided: semantic equivalence of the two pipelines, register allocation, encodings, the arm64 flag fusion (see DESIGN.md: suspected but not demonstrable without arm64 hardware).",
+			"(R01.8) both engines check and access exactly the number of bytes the instruction's mnemonic dictates (same analysis as C02 R02.1/R02.6). (R01.9) both engines test alignment and bounds of an atomic access in the same order – they do not (compiler: bounds first, interpreter: alignment first), demonstrated and recorded as a known finding; (R01.10) memory-writing, atomic and control-transfer SSA opcodes are classified strict and trapping ones keep their trap class; (R01.11) the bounds-check elision cache is merged conservatively at joins (C02 R02.7). The 32-bit slot normalisation at the Go boundary is decided under C08 (R08.9). NOT decided: semantic equivalence of the two pipelines, register allocation, encodings, the arm64 flag fusion (see DESIGN.md: suspected but not demonstrable without arm64 hardware).",
 		Rules: []core.Rule{
 			{ID: "R01.1", Template: "T-EXHAUST", Text: "validator-accepted opcodes ⊆ arms of both engines' dispatchers", Min: 8},
 			{ID: "R01.2", Template: "T-EXHAUST", Text: "every operation kind has an execution arm or a listed reason to rely on the default", Min: 150},
@@ -30,6 +31,9 @@ func init() {
 			{ID: "R01.5", Template: "T-REPR", Text: "32-bit tagged arms push zero-extended values", Min: 25},
 			{ID: "R01.6", Template: "T-MUSTPASS", Text: "indirect call emissions are preceded by the caller-module-context store", Min: 6},
 			{ID: "R01.7", Template: "T-REPR", Text: "amd64 and→TEST fusion matches the zero on the right-hand side only", Min: 2},
+			{ID: "R01.9", Template: "T-SIBLING", Text: "both engines test alignment and bounds of an atomic access in the same order (known finding: they do not)", Min: 1},
+			{ID: "R01.10", Template: "T-SIBLING", Text: "memory-writing, atomic and control SSA opcodes are classified strict, trapping ones keep their trap", Min: 25},
+			{ID: "R01.11", Template: "T-MUSTPASS", Text: "the bounds-check elision cache is merged conservatively at joins (same analysis as C02 R02.7)", Min: 2},
 			{ID: "R01.8", Template: "T-WIDTH", Text: "both engines check and access the number of bytes the instruction's mnemonic dictates", Min: 200},
 		},
 		Run: runC01,
@@ -58,6 +62,9 @@ func runC01(c *core.Ctx) {
 	// both engines access the number of bytes the mnemonic dictates (shared with C02 R02.1 / R02.6)
 	checkFrontendAccessWidths(c, "R01.8")
 	checkInterpreterWidths(c, "R01.8")
+	checkAtomicCheckOrder(c)
+	checkSideEffectClasses(c)
+	checkElisionMerge(c, "R01.11")
 }
 
 // ---------------------------------------------------------------------------------------------------------
@@ -1082,4 +1089,135 @@ func helperReturnsClean32(c *core.Ctx, f *types.Func, depth int) (clean, known b
 		return all && n > 0, true
 	}
 	return false, false
+}
+
+// ---------------------------------------------------------------------------------------------------------
+// R01.10 side-effect classes of the SSA opcodes
+
+var reStrictOp = regexp.MustCompile(`^Opcode(Store|Istore\d+|Atomic\w+|Call\w*|TailCall\w+|Fence|ExitWithCode|ExitIfTrueWithCode|Return|Jump|Brz|Brnz|BrTable)$`)
+var reTrapOp = regexp.MustCompile(`^Opcode(Sdiv|Udiv|Srem|Urem|FcvtToSint|FcvtToUint)$`)
+
+func checkSideEffectClasses(c *core.Ctx) {
+	sp := c.Pkg("internal/engine/wazevo/ssa")
+	if sp == nil {
+		return
+	}
+	info := sp.TypesInfo
+	class := map[string]string{}
+	for _, f := range sp.Syntax {
+		ast.Inspect(f, func(y ast.Node) bool {
+			vs, ok := y.(*ast.ValueSpec)
+			if !ok || len(vs.Names) != 1 || vs.Names[0].Name != "instructionSideEffects" || len(vs.Values) != 1 {
+				return true
+			}
+			if cl, ok := vs.Values[0].(*ast.CompositeLit); ok {
+				for _, e := range cl.Elts {
+					if kv, ok := e.(*ast.KeyValueExpr); ok {
+						class[constNameOf(info, kv.Key)] = constNameOf(info, kv.Value)
+					}
+				}
+			}
+			return true
+		})
+	}
+	if len(class) < 100 {
+		c.Undecided("R01.10", "instructionSideEffects", 0, "table not found")
+		return
+	}
+	var names []string
+	for k := range class {
+		names = append(names, k)
+	}
+	sort.Strings(names)
+	n := 0
+	for _, k := range names {
+		switch {
+		case reStrictOp.MatchString(k):
+			n++
+			c.Check(class[k] == "sideEffectStrict", "R01.10", "side-effect class of "+k+" is strict", 0, "sideEffectStrict",
+				"the opcode writes memory, synchronises or transfers control but is classified "+class[k]+": it no longer starts an instruction group, so the backend may fold an earlier load into an instruction after it (or dead-code elimination may drop it) – the compiler reorders a load with a store/atomic and returns a different value than the interpreter")
+		case reTrapOp.MatchString(k):
+			n++
+			c.Check(class[k] == "sideEffectTraps" || class[k] == "sideEffectStrict", "R01.10", "side-effect class of "+k+" keeps its trap", 0, class[k],
+				"a trapping opcode is classified "+class[k]+": if its result is unused it is removed together with its trap")
+		}
+	}
+	c.Count("classified_side_effect_opcodes", n)
+}
+
+// ---------------------------------------------------------------------------------------------------------
+// R01.9 both engines test alignment and bounds of an atomic access in the same order
+
+func checkAtomicCheckOrder(c *core.Ctx) {
+	fp, ip := c.Pkg("internal/engine/wazevo/frontend"), c.Pkg("internal/engine/interpreter")
+	if fp == nil || ip == nil {
+		return
+	}
+	// compiler: in the atomic address helper, which comes first – the bounds-checking helper or the alignment check?
+	compilerOrder := ""
+	var cpos token.Pos
+	core.AllFuncDecls(fp, func(fd *ast.FuncDecl) {
+		var bounds, align token.Pos
+		ast.Inspect(fd.Body, func(x ast.Node) bool {
+			if call, ok := x.(*ast.CallExpr); ok {
+				if f := core.Callee(fp.TypesInfo, call); f != nil {
+					if f.Name() == "memOpSetup" && bounds == 0 {
+						bounds = call.Pos()
+					}
+					if strings.Contains(strings.ToLower(f.Name()), "alignment") && align == 0 {
+						align = call.Pos()
+					}
+				}
+			}
+			return true
+		})
+		if bounds != 0 && align != 0 {
+			cpos = fd.Pos()
+			if bounds < align {
+				compilerOrder = "bounds, then alignment"
+			} else {
+				compilerOrder = "alignment, then bounds"
+			}
+		}
+	})
+	// interpreter: in the atomic load arm, the unaligned panic vs the accessor / out-of-bounds panic
+	interpOrder := ""
+	info := ip.TypesInfo
+	core.AllFuncDecls(ip, func(fd *ast.FuncDecl) {
+		if fd.Name.Name != "callNativeFunc" {
+			return
+		}
+		ast.Inspect(fd.Body, func(x ast.Node) bool {
+			cc, ok := x.(*ast.CaseClause)
+			if !ok || len(cc.List) == 0 || constNameOf(info, cc.List[0]) != "operationKindAtomicLoad" {
+				return true
+			}
+			var unal, oob token.Pos
+			ast.Inspect(cc, func(y ast.Node) bool {
+				if se, ok := y.(*ast.SelectorExpr); ok {
+					if se.Sel.Name == "ErrRuntimeUnalignedAtomic" && unal == 0 {
+						unal = se.Pos()
+					}
+					if se.Sel.Name == "ErrRuntimeOutOfBoundsMemoryAccess" && oob == 0 {
+						oob = se.Pos()
+					}
+				}
+				return true
+			})
+			if unal != 0 && oob != 0 {
+				if unal < oob {
+					interpOrder = "alignment, then bounds"
+				} else {
+					interpOrder = "bounds, then alignment"
+				}
+			}
+			return false
+		})
+	})
+	if compilerOrder == "" || interpOrder == "" {
+		c.Undecided("R01.9", "atomic check order", 0, "could not locate the checks (compiler: "+compilerOrder+", interpreter: "+interpOrder+")")
+		return
+	}
+	c.Check(compilerOrder == interpOrder, "R01.9", "both engines test alignment and bounds of an atomic access in the same order", cpos, compilerOrder,
+		"the compiler checks "+compilerOrder+" while the interpreter checks "+interpOrder+": an atomic access that is both unaligned and out of bounds traps with `out of bounds memory access` on one engine and `unaligned atomic` on the other")
 }
